@@ -50,7 +50,7 @@ for pid in ALL:
     na.append({"property_id": pid, "reason": NA.get(pid) or NOT_YET.get(pid) or "verification unit for this property is not completed yet; not claimed rather than claimed on partial machinery (DESIGN.md §8)"})
 m = {
  "version": 1,
- "setup_cmd": "true",
+ "setup_cmd": "cd /verif/replay && CARGO_NET_OFFLINE=true CARGO_TARGET_DIR=/verif/out/replay-target cargo build --offline -q",
  "hooks": {"guard": "kani", "enable": "no source hooks: Verus reads functions extracted from /repo's working tree; Kani harness modules are appended (add-only, #[cfg(kani)]) to a scratch copy of the working tree", "baseline_off_cmd": "cd /repo && cargo test --workspace --no-fail-fast --offline", "source_commits": [], "add_only": True},
  "engines": [{"name": "vx+verus+kani", "path": "/verif/tools", "serves_properties": sorted(CLAIMED), "kind_free_text": "mechanical extractor/contract splicer (tools/vx.py) -> Verus (z3) on the real function bodies; Kani (CBMC) harnesses on a scratch copy of the crate for idioms Verus rejects"}],
  "checks": checks,
